@@ -7,7 +7,7 @@
 //! is re-inspected (table + deep-copy snapshot) and the unique table is walked with Rc::ptr_eq.
 
 use super::common::*;
-use crate::conv::{build_in_env, check_interned, check_table, deep_copy, short, tt_of_bdd, tt_of_named};
+use crate::conv::{build_in_env, check_interned, check_table, deep_copy, short, tt_of_bdd};
 use crate::gen::{self, GenCfg, Style};
 use crate::refsem;
 use crate::refsyn;
@@ -496,18 +496,22 @@ fn usize_job(ctx: &Ctx, job: usize, histories: u64, maxlen: usize) -> Stats {
 fn shared_env_job(ctx: &Ctx, job: usize, rounds: u64) -> Stats {
     let mut st = Stats::new();
     let mut rng = Rng::stream(ctx.seed, "C13.shared", job as u64);
-    let names = ["a", "b", "c", "d", "e"];
+    let names = ["va", "vb", "vc", "vd", "ve"];
+    // the same variables (same ids) under other names: identity of a symbol is its id
+    let rename = |t: &str| t.replace("va", "wa").replace("vb", "wb").replace("vc", "wc").replace("vd", "wd").replace("ve", "we");
     let mut cfg = GenCfg::simple(&names, 4);
     cfg.max_fix_depth = 1;
     // references to definitions nobody made are part of the language (they read as false)
     cfg.allow_ref = true;
-    const REF_TEXTS: [&str; 6] = ["{r}", "false | {r}", "exists a # {r}", "gfp X # {r}", "{r} ^ {s}", "if a then {r} else {r}"];
+    const REF_TEXTS: [&str; 6] = ["{r}", "false | {r}", "exists va # {r}", "gfp X # {r}", "{r} ^ {s}", "if va then {r} else {r}"];
     for round in 0..rounds {
         let ordering: Vec<NamedSymbol> = {
             let mut ids: Vec<usize> = (0..names.len()).collect();
             rng.shuffle(&mut ids);
             names.iter().zip(ids).map(|(n, id)| NamedSymbol { name: Rc::new(n.to_string()), id }).collect()
         };
+        // (one ordering vector lists both spellings of every id)
+        let ordering: Vec<NamedSymbol> = ordering.iter().cloned().chain(ordering.iter().map(|s| NamedSymbol { name: Rc::new(rename(&s.name)), id: s.id })).collect();
         let env = Rc::new(BDDEnv::<NamedSymbol>::new());
         let k = 2 + rng.usize(12);
         let mut done: Vec<(String, Rc<BDD<NamedSymbol>>, Rc<BDD<NamedSymbol>>)> = Vec::new();
@@ -522,18 +526,21 @@ fn shared_env_job(ctx: &Ctx, job: usize, rounds: u64) -> Stats {
                 let ast = gen::gen_ast(&mut rng, &cfg);
                 gen::render(&ast, &mut rng, Style::Plain)
             };
+            // every fourth evaluation spells the variables with the other names
+            let other_names = rng.chance(1, 4);
+            let used = if other_names { rename(&text) } else { text.clone() };
             let Ok(ast) = refsyn::parse_text(&text) else { continue };
             let Ok((rnames, want)) = refsem::eval_formula(&ast) else {
                 st.bump("non_convergent_skipped");
                 continue;
             };
-            texts.push(text.clone());
+            texts.push(used.clone());
             st.evals += 1;
             st.bump("shared_env_evaluations");
             let case = json!({"kind": "shared-env", "ordering": ordering.iter().map(|s| json!([s.name.as_ref(), s.id])).collect::<Vec<_>>(), "texts": texts});
             util::budget(20_000_000, 100_000);
             let r = guarded(|| {
-                let pf = ParsedFormula::new_with_env(Rc::clone(&env), &mut BufReader::new(text.as_bytes()), Some(ordering.clone()))?;
+                let pf = ParsedFormula::new_with_env(Rc::clone(&env), &mut BufReader::new(used.as_bytes()), Some(ordering.clone()))?;
                 Ok::<_, std::io::Error>(pf.eval())
             });
             let d = match r {
@@ -555,7 +562,9 @@ fn shared_env_job(ctx: &Ctx, job: usize, rounds: u64) -> Stats {
                     st.violate("c13.history-independence", "C13:shared:differs-from-fresh".into(), format!("`{}` evaluates to {} in the shared environment, {} in a fresh one", text, short(&d), short(&fd)), case.clone());
                 }
             }
-            if tt_of_named(&d, &rnames).ok().as_ref() != Some(&want) {
+            // (by id: a shared node carries whichever spelling created it first)
+            let by_id = |s: &NamedSymbol| ordering.iter().find(|o| o.id == s.id).and_then(|o| rnames.iter().position(|n| n == o.name.as_ref() || rename(n) == *o.name.as_ref())).map(|p| p as u32);
+            if crate::conv::tt_of_bdd(&d, rnames.len() as u32, &by_id).ok().as_ref() != Some(&want) {
                 st.bump("semantic_mismatch(C01's business, not judged here)");
             }
             if let Some(prev) = done.iter().find(|x| x.0 == text) {
@@ -587,6 +596,101 @@ fn shared_env_job(ctx: &Ctx, job: usize, rounds: u64) -> Stats {
     st
 }
 
+/// Named definitions (`{name}` in the language, `define` in the API): one parsed formula is
+/// evaluated again and again while its definitions are made, changed and nested; every evaluation
+/// must equal the evaluation, in a fresh environment, of the text with the CURRENT definitions
+/// written out.
+fn definitions_job(ctx: &Ctx, job: usize, rounds: u64) -> Stats {
+    use rsbdd::parser::ReferenceContents;
+    let mut st = Stats::new();
+    let mut rng = Rng::stream(ctx.seed, "C13.definitions", job as u64);
+    let names = ["a", "b", "c", "d", "e"];
+    let mut cfg = GenCfg::simple(&names, 3);
+    cfg.allow_fix = false;
+    for _ in 0..rounds {
+        let ordering: Vec<NamedSymbol> = {
+            let mut ids: Vec<usize> = (0..names.len()).collect();
+            rng.shuffle(&mut ids);
+            names.iter().zip(ids).map(|(n, id)| NamedSymbol { name: Rc::new(n.to_string()), id }).collect()
+        };
+        let mut piece = |rng: &mut Rng| gen::render(&gen::gen_ast(rng, &cfg), rng, Style::Plain);
+        let with_fix = rng.chance(1, 4);
+        let main = if with_fix {
+            format!("{{p}} & (lfp X # ({{p}} | X | ({}))) | {{q}}", piece(&mut rng))
+        } else {
+            match rng.below(3) {
+                0 => format!("({}) & {{p}} | {{q}}", piece(&mut rng)),
+                1 => format!("if {{p}} then ({}) else {{q}}", piece(&mut rng)),
+                _ => format!("[{{p}}, {{q}}, {{p}}] >= 2 | ({})", piece(&mut rng)),
+            }
+        };
+        let env = Rc::new(BDDEnv::<NamedSymbol>::new());
+        util::budget(20_000_000, 10_000);
+        let Ok(Ok(pf)) = guarded(|| ParsedFormula::new_with_env(Rc::clone(&env), &mut BufReader::new(main.as_bytes()), Some(ordering.clone()))) else { continue };
+        // current definitions as texts (p may refer to q, never the other way round)
+        let mut defs: [Option<String>; 2] = [None, None];
+        let mut log: Vec<String> = vec![format!("formula `{}`", main)];
+        for _ in 0..(3 + rng.usize(6)) {
+            let which = rng.usize(2);
+            let text = if which == 0 && rng.chance(1, 2) { format!("{{q}} {} ({})", rng.pick_str(&["&", "|", "^", "=>"]), piece(&mut rng)) } else { piece(&mut rng) };
+            let as_bdd = !with_fix && !text.contains("{q}") && rng.chance(1, 3);
+            let name = ["p", "q"][which];
+            util::budget(20_000_000, 10_000);
+            let defined = guarded(|| -> std::io::Result<()> {
+                let sub = ParsedFormula::new_with_env(Rc::clone(&env), &mut BufReader::new(text.as_bytes()), Some(ordering.clone()))?;
+                if as_bdd {
+                    pf.define(name, ReferenceContents::BDD(sub.eval()));
+                } else {
+                    pf.define(name, ReferenceContents::Syntax(sub.bdd.clone()));
+                }
+                Ok(())
+            });
+            if !matches!(defined, Ok(Ok(()))) {
+                break;
+            }
+            defs[which] = Some(text.clone());
+            log.push(format!("{} := {} `{}`", name, if as_bdd { "diagram of" } else { "syntax" }, text));
+            // the text with the current definitions written out
+            let q_text = defs[1].clone().map(|t| format!("({})", t)).unwrap_or_else(|| "false".into());
+            let p_text = defs[0].clone().map(|t| format!("({})", t.replace("{q}", &q_text))).unwrap_or_else(|| "false".into());
+            let expanded = main.replace("{p}", &p_text).replace("{q}", &q_text);
+            st.evals += 1;
+            st.bump("evaluations_under_changing_definitions");
+            let case = json!({"kind": "definitions", "seed": ctx.seed, "job": job, "history": log});
+            util::budget(20_000_000, 10_000);
+            let got = guarded(|| pf.eval());
+            util::budget(20_000_000, 10_000);
+            let want = guarded(|| ParsedFormula::new(&mut BufReader::new(expanded.as_bytes()), Some(ordering.clone())).map(|f| f.eval()));
+            match (got, want) {
+                (Ok(d), Ok(Ok(w))) => {
+                    if d.as_ref() != w.as_ref() {
+                        st.violate("c13.history-independence", "C13:definitions:differs-from-fresh".into(), format!("after [{}] the formula evaluates to {} but `{}` evaluates to {} in a fresh environment", log.join("; "), short(&d), expanded, short(&w)), case);
+                        break;
+                    }
+                    if let Err(m) = check_interned(&env, &d) {
+                        st.violate("c13.sharing", "C13:definitions:result-not-shared".into(), format!("after [{}]: {}", log.join("; "), m), case);
+                        break;
+                    }
+                    st.nt.insert(mix(util::hash_str(&expanded), log.len() as u64));
+                }
+                (Err(util::Caught::Budget(_)), _) | (_, Err(util::Caught::Budget(_))) => {
+                    st.bump("budget_exceeded(not judged)");
+                    break;
+                }
+                (Err(c), Ok(Ok(_))) => {
+                    st.violate("c13.panic", format!("C13:definitions:{}", c.signature()), format!("after [{}]: {:?}", log.join("; "), c), case);
+                    break;
+                }
+                _ => {
+                    st.bump("expanded_text_not_evaluable(not judged)");
+                    break;
+                }
+            }
+        }
+    }
+    st
+}
+
 pub fn run(ctx: &Ctx) -> (Stats, Spec) {
     let big = ctx.tier.pick(18_000usize, 40_000usize);
     let (hist, maxlen, rounds) = ctx.tier.pick((300u64, 600usize, 2500u64), (1500u64, 3000usize, 20000u64));
@@ -595,6 +699,7 @@ pub fn run(ctx: &Ctx) -> (Stats, Spec) {
             let mut s = usize_job(ctx, job, hist, maxlen);
             s.merge(shared_env_job(ctx, job, rounds));
             s.merge(drop_heavy_job(ctx, job, hist * 4));
+            s.merge(definitions_job(ctx, job, rounds / 10));
             if job == 0 {
                 s.merge(big_table_job(ctx, big));
             }
@@ -607,12 +712,13 @@ pub fn run(ctx: &Ctx) -> (Stats, Spec) {
         miri_tripwire(ctx, &mut st, 150);
     }
     let spec = Spec {
-        rule: "random histories of 100..600 [quick] / 100..3000 [thorough] public operations (var, const, 7 binary connectives, ite, exists/all/exists_impl, aln/amn/exn, count_*, fp with a closure calling back into the environment, model, infer, retain, clean, order-respecting mk_choice) on one BDDEnv<usize> over 5-6 sparse labels, operands drawn from all earlier handles (old ones preferred); fourth family: ONE environment grown to several hundred thousand distinct nodes (3 600 [quick] / 10 000 [thorough] random functions over 10 variables), after which the earliest handles are re-inspected and combined with the newest; third family: short histories in which handles are DROPPED after operations (a few, all non-constants, or all), `clean` is called often, and the environment's invariants (both leaves present, keys = values, children are table nodes) are walked after every step; second family: 2-13 formula evaluations (incl. re-evaluations) sharing one BDDEnv<NamedSymbol> under a common random ordering. distinct = hash of the operation list; non-trivial = >= 30% of operands are handles older than 20 steps and the table reached >= 50 nodes (shared-env: >= 4 evaluations, >= 20 nodes).".into(),
+        rule: "random histories of 100..600 [quick] / 100..3000 [thorough] public operations (var, const, 7 binary connectives, ite, exists/all/exists_impl, aln/amn/exn, count_*, fp with a closure calling back into the environment, model, infer, retain, clean, order-respecting mk_choice) on one BDDEnv<usize> over 5-6 sparse labels, operands drawn from all earlier handles (old ones preferred); fourth family: ONE environment grown to several hundred thousand distinct nodes (3 600 [quick] / 10 000 [thorough] random functions over 10 variables), after which the earliest handles are re-inspected and combined with the newest; third family: short histories in which handles are DROPPED after operations (a few, all non-constants, or all), `clean` is called often, and the environment's invariants (both leaves present, keys = values, children are table nodes) are walked after every step; second family: 2-13 formula evaluations (incl. re-evaluations) sharing one BDDEnv<NamedSymbol> under a common random ordering. distinct = hash of the operation list; non-trivial = >= 30% of operands are handles older than 20 steps and the table reached >= 50 nodes (shared-env: >= 4 evaluations, >= 20 nodes). DEFINITIONS: one parsed formula with references {p}, {q} (also inside a fixed point) is evaluated after each of 3-8 define / redefine steps (syntax or diagram contents, p may refer to q) and compared with the evaluation, in a fresh environment, of the text with the current definitions written out.".into(),
         assumptions: vec![
             "operands from other environments are never mixed in; formulas sharing an environment share one variable numbering".into(),
             "the unique table is inspected through the public `nodes` field at quiescent points; duplicates() is not used as an oracle".into(),
         ],
         floors: vec![
+            ("evaluations_under_changing_definitions".into(), 1_000, "definitions never exercised".into()),
             ("histories".into(), 50, "too few histories".into()),
             ("full_inspections".into(), 100, "too few inspections".into()),
             ("op_Fp".into(), 50, "fp never exercised".into()),
@@ -688,6 +794,13 @@ fn parse_op(s: &str) -> Option<Op> {
 }
 
 pub fn replay(_ctx: &Ctx, _monitor: &str, case: &Value, st: &mut Stats) {
+    if case.get("kind").and_then(|k| k.as_str()) == Some("definitions") {
+        // the job's stream is deterministic: re-run it
+        let mut c2 = _ctx.clone();
+        c2.seed = case.get("seed").and_then(|j| j.as_u64()).unwrap_or(_ctx.seed);
+        st.merge(definitions_job(&c2, case.get("job").and_then(|j| j.as_u64()).unwrap_or(0) as usize, 2_000));
+        return;
+    }
     if case.get("kind").and_then(|k| k.as_str()) == Some("shared-env") {
         let texts: Vec<String> = case.get("texts").and_then(|t| t.as_array()).map(|a| a.iter().filter_map(|x| x.as_str().map(|s| s.to_string())).collect()).unwrap_or_default();
         let ordering: Vec<NamedSymbol> = case
@@ -714,7 +827,9 @@ pub fn replay(_ctx: &Ctx, _monitor: &str, case: &Value, st: &mut Stats) {
                     st.violate("c13.history-independence", "C13:shared:differs-from-fresh".into(), format!("`{}`", text), case.clone());
                 }
             }
-            if let Some(prev) = done.iter().find(|x| x.0 == text) {
+            // (the other spelling of the same variables is the same formula)
+            let key = text.replace("wa", "va").replace("wb", "vb").replace("wc", "vc").replace("wd", "vd").replace("we", "ve");
+            if let Some(prev) = done.iter().find(|x| x.0 == key) {
                 if !Rc::ptr_eq(&prev.1, &d) {
                     st.violate("c13.sharing", "C13:shared:re-evaluation-not-pointer-identical".into(), format!("`{}`", text), case.clone());
                 }
@@ -722,7 +837,7 @@ pub fn replay(_ctx: &Ctx, _monitor: &str, case: &Value, st: &mut Stats) {
             if let Err(m) = check_interned(&env, &d) {
                 st.violate("c13.sharing", "C13:shared:result-not-shared".into(), m, case.clone());
             }
-            done.push((text, d));
+            done.push((key, d));
         }
         if let Err(m) = check_table(&env) {
             st.violate("c13.table", "C13:shared:table-invariant-broken".into(), m, case.clone());
